@@ -163,7 +163,7 @@ def validate(v, traces, label="Trace_Repository"):
     tdir.mkdir(parents=True, exist_ok=True)
     tf = tdir / f"c06-{os.getpid()}.json"
     tf.write_text(json.dumps(traces))
-    cfg = c06.CFG.format(apis='{"add", "update"}', maxhist=0, maxmulti=0, same="FALSE", fronts=c06.ALLF, probes="{FALSE}", fieldrej="FALSE", **UNIVERSE_CFG)
+    cfg = c06.CFG.format(apis='{"add", "update"}', maxhist=0, maxmulti=0, same="FALSE", fronts=c06.ALLF, probes="{FALSE}", fieldrej="FALSE", shared="FALSE", **UNIVERSE_CFG)
     cfg = cfg.replace("SPECIFICATION Spec", "SPECIFICATION TraceSpec").replace("ACTION_CONSTRAINT Emit\n", "")
     cfg = cfg.replace("INVARIANT LastWriteWins\n", "").replace("PROPERTY OthersUntouched\n", "").replace("VIEW View\n", "")
     cfg += "INVARIANT Progress\n"
